@@ -6,12 +6,28 @@ ID = "C20"
 MANIFEST = {
     "text": "Theorems (Coq, unbounded): the config hashtable with C's truncating index refines a total finite map for every "
             "table size/op sequence/key (C20_config_map, C20_index_in_bounds); atoi_impl and the four typed front ends equal "
-            "'ws* sign* digit+' saturated at the type limits with exact overflow flag and no uint64 wrap (C20_atoi_*). "
-            "Tie: models extracted to OCaml and compared with the C code (ASan/UBSan white-box copies + public config API) on "
-            "exhaustive small scopes and seeded cases on every run.",
-    "note": "Trusted: Coq kernel, extraction (ExtrOcamlBasic), the hand-written model of hashtable.c/atoi.c/sched_config.c/"
-            "pool_config.c (validated by the differential harness, not verified), gcc/glibc. Affinity parser and env clamping "
-            "parts of C20 are added in later revisions (see evidence theorems list).",
+            "'ws* sign* digit+' saturated at the type limits with exact overflow flag and no uint64 wrap (C20_atoi_*); the "
+            "ABT_SET_AFFINITY parser (model = code with the F3 fix, index-based with explicit reads) accepts exactly the documented "
+            "grammar with explicit white space (C20_affinity_sound, C20_affinity_complete), returns the documented expansion modulo "
+            "2^32 (C20_affinity_expand), never reads beyond the terminating NUL nor exhausts its fuel, also without the fix "
+            "(C20_affinity_memory_safe), never overflows an int (C20_affinity_no_overflow) while the unfixed code does on "
+            "'99999999999' and '-2147483648' (C20_affinity_no_overflow_refuted, finding F3) and differs from the fixed code only there "
+            "(C20_affinity_fix_conservative); list sizes are bounded by length * (2^20 - 1) (C20_affinity_alloc_bounded); every "
+            "numeric field written by ABTD_env_init lies in its documented range with its documented rounding for every environment "
+            "(C20_env_clamped, C20_env_rounding, C20_env_load_is_clamp), and no unsigned operation wraps unless the system page size "
+            "exceeds 2^62 under mprotect or the ULT stack size reaches 2^62 (C20_env_no_overflow, C20_env_overflow_witness). "
+            "Tie: models extracted to OCaml and compared with the C code on every run: ASan/UBSan white-box copies of hashtable.c, "
+            "atoi.c and abtd_affinity_parser.c (all strings of length <= 5/6 over '09+- {}:,', the parser's compiled-out self test, "
+            "seeded valid and mutated strings, INT_MAX / MAX_NUM_ELEMS boundaries) and ABTD_env_init + ABT_init + "
+            "ABT_info_query_config + a smoke workload in a child process under generated ABT_* environments.",
+    "note": "Trusted: Coq kernel, extraction (ExtrOcamlBasic), the hand-written models of hashtable.c/atoi.c/sched_config.c/"
+            "pool_config.c/abtd_affinity_parser.c/abtd_env.c (validated by the differential harness, not verified), gcc/glibc, the "
+            "sanitizers. Modelled, not verified: allocation failure inside the affinity parser is not modelled (allocations succeed); "
+            "uint32_t index is a natural number (strings shorter than 2^32); the uint32_t element counters are list lengths (proved "
+            "< 2^32 for strings of <= 4096 characters; beyond ~40 KB and 16 GB of ids they could wrap); ABT_SET_AFFINITY itself is "
+            "only reached white-box (HAVE_PTHREAD_SETAFFINITY_NP is undefined in the active configuration); ABT_MEM_LP_ALLOC and the "
+            "huge-page probing, affinity type, and print_config output are not modelled; sysconf/getpagesize are parameters. The "
+            "'sane magnitude' predicate under which ABT_init and the smoke workload are run is part of the model (EnvClamp.sane).",
 }
 KEYS = [-9, -1, 0, 7, 8, 15, -17, 16, 23, -2147483648, 2147483647, 1, 2, 3, -8]
 
@@ -357,6 +373,12 @@ def gen_env(rng, tier):
     for name in ["KEY_TABLE_SIZE", "THREAD_STACKSIZE", "MAX_NUM_XSTREAMS", "USE_LOG"]:
         cases.append(head + " " + _envtok("ABT_ENV_" + name, "8") + " " + _envtok("ABT_" + name, "32"))
         cases.append(head + " " + _envtok("ABT_" + name, "junk") + " " + _envtok("ABT_ENV_" + name, "32"))
+    # min_val > max_val: ABT_MEM_STACK_PAGE_SIZE is clamped to [4 * thread_stacksize, SIZE_MAX / 2], an empty
+    # range for a ULT stack size above 2^61 (the only place where the order of min and max in the clamp matters)
+    for ts in [2**61 + 1, 2**61 + 2**60, 2**62 - 64, 2**62 - 63, 2**62 + 64, 2**63 - 64]:
+        for sp in ["1", "4096", str(2**63), str(2**64), "junk"]:
+            cases.append(head + " " + _envtok("ABT_THREAD_STACKSIZE", str(ts)) + " " + _envtok("ABT_MEM_STACK_PAGE_SIZE", sp))
+            n_single += 1
     # combinations
     ncomb = 300 if tier == "quick" else 8000
     names = list(ENV_NUM)
@@ -427,6 +449,14 @@ def run(tier, seed, replay):
         gen, classify, nontrivial, tier, seed, replay=replay, san=True, known_match=known_match,
         rule="HT: every op sequence of length<=L over 9 ops on 3 colliding keys (exhaustive) + seeded sequences on W(hite-box, "
              "n in 1..8)/S(ched)/P(ool) config objects; non-trivial = >=3 ops. AT: all strings of length<=L over ' +-09a' "
-             "(exhaustive) + limit-centred and random strings; non-trivial = contains a digit. Distinct = distinct case text.",
-        extra_assumptions=["hashtable.c / atoi.c are exercised as ASan+UBSan-instrumented copies (white box) and through "
-                           "ABT_sched_config_* / ABT_pool_config_* of the -O2 library"])
+             "(exhaustive) + limit-centred and random strings; non-trivial = contains a digit. AF: all strings of length<=5 (quick) / "
+             "6 (thorough) over '09+- {}:,' (exhaustive), the parser's self-test and documentation strings, INT_MAX and "
+             "MAX_NUM_ELEMS boundaries, seeded grammar-generated strings with random white space, half of them mutated; "
+             "non-trivial = contains a digit. ENV: every numeric ABT_* setting alone at its type/range limits +-1 in plain, signed, "
+             "zero-padded and junk-suffixed spellings, booleans, stack-guard strings, ABT_/ABT_ENV_ priority, min>max combinations, "
+             "seeded combinations; non-trivial = sets at least one variable. Distinct = distinct case text.",
+        extra_assumptions=["hashtable.c / atoi.c / abtd_affinity_parser.c are exercised as ASan+UBSan-instrumented copies (white "
+                           "box); sched/pool config objects and ABTD_env_init / ABT_init / ABT_info_query_config through the -O2 "
+                           "library (ENV cases in a forked child of the harness)",
+                           "F3 (signed overflow in consume_int) is matched by: UBSan 'signed integer overflow' abort of an AF "
+                           "case whose string contains an integer literal beyond INT_MAX while the model (fixed code) rejects"])
